@@ -315,6 +315,7 @@ func (s *session) request(r *rig.Rig, c string, n int) {
 		block *adaptation.PluginSyncBlock
 	)
 	s.ev("call", "c", c, "req", id, "event", ev, "ctr", ctr)
+	t0 := time.Now()
 	if ev == "CreateContainer" && !s.o.NoBlocks {
 		block = r.Ad.BlockPluginSync()
 		s.ev("block.acquired", "c", c, "req", id)
@@ -365,7 +366,8 @@ func (s *session) request(r *rig.Rig, c string, n int) {
 		et = err.Error()
 	}
 	s.ev("ret", "c", c, "req", id, "event", ev, "err", err != nil, "errtext", et,
-		"veto", err != nil && strings.Contains(et, errVeto.Error()), "tags", tags)
+		"veto", err != nil && strings.Contains(et, errVeto.Error()), "tags", tags,
+		"ms", int(time.Since(t0).Milliseconds()), "hung", false)
 	if ev == "CreateContainer" {
 		if err == nil {
 			s.perturb()
@@ -381,18 +383,8 @@ func (s *session) request(r *rig.Rig, c string, n int) {
 	}
 }
 
-func (s *session) oneRun(w *rec.Writer) error {
-	s.log = &rec.Buf{}
-	s.store = nil
-	s.finished = map[string]bool{}
-	s.conf = sync.Map{}
-	o := s.o
-	s.ev("Begin", "plugins", o.Plugins, "callers", o.Callers)
-	r, err := rig.New()
-	if err != nil {
-		return err
-	}
-	defer r.Close()
+// installSync makes the runtime hand out its own store and log the snapshot
+func (s *session) installSync(r *rig.Rig) {
 	r.SyncOverride = func(ctx context.Context, cb adaptation.SyncCB) error {
 		s.smu.Lock()
 		ids := append([]string{}, s.store...)
@@ -407,6 +399,21 @@ func (s *session) oneRun(w *rec.Writer) error {
 		_, err := cb(ctx, nil, ctrs)
 		return err
 	}
+}
+
+func (s *session) oneRun(w *rec.Writer) error {
+	s.log = &rec.Buf{}
+	s.store = nil
+	s.finished = map[string]bool{}
+	s.conf = sync.Map{}
+	o := s.o
+	s.ev("Begin", "plugins", o.Plugins, "callers", o.Callers, "timeout_ms", 2000)
+	r, err := rig.New()
+	if err != nil {
+		return err
+	}
+	defer r.Close()
+	s.installSync(r)
 	updSeen := map[string]int{}
 	var umu sync.Mutex
 	r.OnUpd = func(_ context.Context, us []*api.ContainerUpdate) ([]*api.ContainerUpdate, error) {
